@@ -147,6 +147,10 @@ class Reg2AxiMonitor:
             bad.append(('valid_dropped_before_accept', {'tvalid_before': 1, 'tvalid_after': post['tvalid']}))
         if not pre['sent'] and post['sent'] and not (accept or comp):
             bad.append(('sent_without_accepted_beat', {'sent_before': 0, 'sent_after': 1}))
+        if x['ap_reset'] and not x['load_outs'] and post['tvalid']:
+            # "keeps VALID asserted until ... it is reset": a reset ends the offer (a load pulse in the reset cycle itself is
+            # not ordered by the statement and is left open)
+            bad.append(('valid_survives_reset', {'tvalid_before': pre['tvalid'], 'tvalid_after': post['tvalid']}))
         if x['load_outs']:
             if A:
                 cap2 = (x['reg_in'],)
